@@ -140,6 +140,9 @@ func (e *Engine) opBatch(c *cursor) *Violation {
 		e.rmOrder = order
 	}
 
+	if e.P.BatchAsSingles && why == "" && !e.locked() {
+		return e.batchAsSingles(op, matched)
+	}
 	res, ok, v := e.issue(op, why)
 	if v != nil {
 		if v.Class == "unexpected-panic" {
@@ -528,6 +531,41 @@ func (e *Engine) fillToLimit(c *cursor) *Violation {
 			return e.viol("type-limit", nil, "resource type number %d was registered (limit %d)", ecs.MaskTotalBits+1, ecs.MaskTotalBits)
 		}
 		e.extraRes = true
+	}
+	return nil
+}
+
+// batchAsSingles executes a (legal) batch step as the corresponding single-entity call for every matching entity.
+// Used only by the differential attribution of C08: if a failing trace is clean when run this way, the batch
+// implementation does not equal the loop of singles.
+func (e *Engine) batchAsSingles(op *COp, matched []*MEnt) *Violation {
+	for _, me := range append([]*MEnt{}, matched...) {
+		var sop *COp
+		switch op.Variant {
+		case "Batch.RemoveEntities":
+			sop = &COp{Kind: "rm", Ent: me.H, Rel: -1}
+		case "Batch.SetRelation", "Relations.SetBatch":
+			sop = &COp{Kind: "setrel", Variant: "Relations.Set", Ent: me.H, Rel: op.Rel, Target: op.Target}
+		case "Relations.ExchangeBatch":
+			sop = &COp{Kind: "xchg", Variant: "Relations.Exchange", Ent: me.H, Add: op.Add, Rem: op.Rem, Rel: op.Rel, HasTgt: true, Target: op.Target}
+		default:
+			sop = &COp{Kind: "xchg", Variant: "Exchange", Ent: me.H, Add: op.Add, Rem: op.Rem, Rel: -1}
+		}
+		_, ok, v := e.issue(sop, "")
+		if v != nil {
+			return v
+		}
+		if !ok {
+			continue
+		}
+		switch sop.Kind {
+		case "rm":
+			e.commitRemove(me)
+		case "setrel":
+			e.commitSetRel(sop, me)
+		default:
+			e.commitExchange(sop, me)
+		}
 	}
 	return nil
 }
